@@ -9,7 +9,7 @@ from ..flow import Flow
 from ..model import AnalysisError, Cls, Func, Program, walk_own
 from ..report import Report
 from ..resolve import const_value, dotted, kwarg
-from ..util import calls_in, ext_name, open_mode, returns_of, src
+from ..util import assigned_value, calls_in, ext_name, open_mode, returns_of, src
 from .c11 import _lines_field, data_path_field
 from .filefam import FILES_MOD, Family
 
@@ -175,8 +175,8 @@ class _DirtyWritten(Client):
 
     def event(self, kind, node, state, ctx):
         if kind == "store" and isinstance(node, ast.Attribute) and node.attr == self.fld and ctx.scope.is_self(node.value):
-            st = getattr(node, "_parent", None)
-            v = const_value(st.value, None) if isinstance(st, ast.Assign) else None
+            av = assigned_value(node)
+            v = const_value(av, None) if av is not None else None
             return (True,) if v is True else (False,) if v is False else (state,)
         return (state,)
 
